@@ -249,7 +249,7 @@ def run(ctx, known, built):
             fpath = os.path.join(ctx.scratch, "witness_" + fn)
             json.dump(w["font"], open(fpath, "w"))
             _run_stream(ctx, fc, ufoio, "w_" + fn[:-5], ctx.seed, 1, [], [c for c in w.get("style_classes", [])],
-                        known_ids, stats, None, witness_font=fpath, fixed_style=w.get("style"), rng_seed=1)
+                        known_ids, stats, None, witness_font=fpath, fixed_style=w.get("style"), rng_seed=w.get("rng_seed", 1))
             if sum(stats["class_hits"].values()) == before[1]:
                 stale.append(fn)
     ctx.note("witnesses done")
